@@ -3,6 +3,7 @@ import RtcVerif.Proofs.C13Lemmas
 import RtcVerif.Proofs.C13Spec
 import RtcVerif.Proofs.C13Alias
 import RtcVerif.Proofs.C13Sim
+import RtcVerif.Proofs.C13IO
 /-!
 # C13 — aliases are transparent: any alias name addresses the same quantity, signed
 
@@ -276,5 +277,60 @@ theorem C13_signed_nominals_legacy_wrong :
       ∧ (simXY true).getVar rXYZ "x" = some 5
       ∧ ((simXY true).setVar rXYZ "y" 3).bind (fun s => s.getVar rXYZ "x") = some 3 := by
   refine ⟨?_, ?_, ?_, ?_⟩ <;> decide +kernel
+
+/-! ## data read from files under alias names (IO mixins) -/
+
+/-- **The listed-variable reader is alias transparent** (`CSVMixin.history` over
+    `initial_state.csv`; `IOMixin.history / seed / constant_inputs` over the imported time series):
+    for canonical listed names `vars`, a signed store and a signed result dictionary, the loop
+    `for v in vars: try: result[v] = store[v] except KeyError: pass` succeeds and through ANY name
+    `k` the result is the store read through `k` when the quantity of `k` is listed and present,
+    and is unchanged otherwise. -/
+theorem C13_read_listed_transparent [LawfulNegVal V] (r : Rel) (store : ADict V)
+    (hs : store.signedValues = true) (hok : ∀ k x, store.get r k = .ok x → ok x = true)
+    (vars : List VName) (hcan : ∀ v ∈ vars, r v = (v, Sign.pos))
+    (h : ADict V) (hh : h.signedValues = true) :
+    ∃ h', readListed r store h vars = .ok h' ∧ h'.signedValues = true ∧
+      (∀ k x, (r k).1 ∈ vars → store.get r k = .ok x → h'.get r k = .ok x) ∧
+      (∀ k, ((r k).1 ∉ vars ∨ store.get r k = .error .keyError) → h'.get r k = h.get r k) :=
+  readListed_transparent r store hs hok vars hcan h hh
+
+/-- **A file column headed by any name of a quantity reaches every name of it, signed**: the
+    column `col` with value `v` is put into the store (`store[col] = v`); the quantity of `col` is a
+    listed variable.  Then the result of the reader, read through any name `k` of that quantity, is
+    `sign(col) * sign(k) * v` -- whether `col` is the canonical name, an alias or a negated alias.
+    (Seeded change c13i: with a plain `dict` as the store the column is found only when `col` is
+    the canonical name itself.) -/
+theorem C13_file_column_through_any_alias [LawfulNegVal V] (r : Rel) (a store : ADict V)
+    (col : VName) (v : V) (hsa : a.signedValues = true) (hset : a.set r col v = .ok store)
+    (hok : ∀ k x, store.get r k = .ok x → ok x = true)
+    (vars : List VName) (hcan : ∀ w ∈ vars, r w = (w, Sign.pos)) (hcol : (r col).1 ∈ vars)
+    (h : ADict V) (hh : h.signedValues = true) :
+    ∃ h', readListed r store h vars = .ok h' ∧
+      ∀ k, (r k).1 = (r col).1 → h'.get r k = .ok (signed ((r col).2 * (r k).2) v) := by
+  have hss : store.signedValues = true := by
+    obtain ⟨a', ha', hsg⟩ := (C13_set_rejects_iff r a col v).2 (by
+      cases hv : ok v
+      · simp [ADict.set, hv] at hset
+      · rfl)
+    rw [hset] at ha'
+    injection ha' with e
+    rw [e, hsg, hsa]
+  obtain ⟨h', hrun, _, hA, _⟩ := readListed_transparent r store hss hok vars hcan h hh
+  refine ⟨h', hrun, ?_⟩
+  intro k hk
+  exact hA k _ (hk ▸ hcol) (C13_get_set_signed r a store col k v hsa hset hk)
+
+/-- non-vacuity: `initial_state.csv` with the single column `y = 3` (`y = -x`, `z = y`), listed
+    variables `x` and `w`: the history reads `-3` through `x`, `3` through `y` and `z`; nothing for
+    `w`.  With the header `x` the same store is reached. -/
+example :
+    let three : Val := .atom (.num (XVal.fin 3))
+    ∃ store h', (ADict.empty true : ADict Val).set rXYZ "y" three = .ok store
+      ∧ readListed rXYZ store (ADict.empty true) ["x", "w"] = .ok h'
+      ∧ h'.get rXYZ "x" = .ok (.atom (.num (XVal.fin (-3))))
+      ∧ h'.get rXYZ "y" = .ok three ∧ h'.get rXYZ "z" = .ok three
+      ∧ h'.get rXYZ "w" = .error .keyError ∧ h'.keys = ["x"] := by
+  refine ⟨_, _, rfl, rfl, ?_, ?_, ?_, ?_, ?_⟩ <;> decide
 
 end RtcVerif.C13
